@@ -16,6 +16,7 @@ type SchemaM struct {
 	Type  string   // @name for type/array
 	Types []string // user types referenced (inline)
 	Enums []string // enums referenced (inline)
+	AllOf []string // base types (inline object schema with an allOf rule)
 }
 
 func (s *SchemaM) notation() string {
@@ -41,7 +42,11 @@ func (s *SchemaM) usedTypes() []string {
 	case "type", "array":
 		return []string{s.Type}
 	}
-	return s.Types
+	tt := append([]string(nil), s.Types...)
+	for _, b := range s.AllOf {
+		tt = appendUniq(tt, b)
+	}
+	return tt
 }
 
 type ResponseM struct {
@@ -167,6 +172,24 @@ func (g *genState) inlineSchema(allowRefs bool) *SchemaM {
 		s.Body = b.String()
 	}
 	return s
+}
+
+// withAllOf puts an allOf rule on the opening brace of an object schema (multi-line form).
+func withAllOf(body string, bases []string) string {
+	rule := fmt.Sprintf("%q", bases[0])
+	if len(bases) > 1 {
+		var qq []string
+		for _, b := range bases {
+			qq = append(qq, fmt.Sprintf("%q", b))
+		}
+		rule = "[" + strings.Join(qq, ", ") + "]"
+	}
+	inner := strings.TrimSuffix(strings.TrimPrefix(body, "{"), "}")
+	if !strings.HasPrefix(inner, "\n") {
+		// one-line form: split the properties onto lines
+		inner = "\n  " + strings.TrimSpace(inner) + "\n"
+	}
+	return "{ // {allOf: " + rule + "}" + inner + "}"
 }
 
 func appendUniq(ss []string, s string) []string {
@@ -318,6 +341,12 @@ func GenModel(r *Rng) *ApiModel {
 		later := g.types[i+1:]
 		s := (&genState{r: r, types: later, enums: g.enums, nextID: g.nextID}).inlineSchema(true)
 		g.nextID += 10
+		if len(later) > 0 && r.Chance(1, 2) {
+			s.AllOf = []string{later[r.Intn(len(later))]}
+			// a second base only when it is the last type (which has no base itself) and the first base is
+			// the type right before it without... keep it simple: two bases are generated by the C12 generator
+			s.Body = withAllOf(s.Body, s.AllOf)
+		}
 		blocks = append(blocks, BlockM{Kind: "type", Name: t, Annotation: g.annotation(), Schema: s})
 	}
 	for _, e := range g.enums {
@@ -991,4 +1020,58 @@ func Skeleton(v *OVal) *OVal {
 		return a
 	}
 	return v
+}
+
+// allOfGraph: type name -> its allOf bases.
+func (m *ApiModel) allOfGraph() map[string][]string {
+	g := map[string][]string{}
+	for i := range m.Blocks {
+		b := &m.Blocks[i]
+		if b.Kind == "type" && b.Schema != nil && len(b.Schema.AllOf) > 0 {
+			g[b.Name] = b.Schema.AllOf
+		}
+	}
+	return g
+}
+
+// closeUsedTypes replaces every usedUserTypes list by its closure under allOf ancestry (sorted).
+// Whether a schema lists only the types it names or also the allOf ancestors of those depends on the
+// order in which the implementation happens to process the schemas (known finding F15); the closure is the
+// same in both cases, so comparisons are made on it and F15 itself is tracked by its own witness.
+func closeUsedTypes(v *OVal, graph map[string][]string) {
+	if v == nil {
+		return
+	}
+	switch v.Kind {
+	case OObj:
+		for i := range v.Obj {
+			if v.Obj[i].K == "usedUserTypes" {
+				set := map[string]bool{}
+				var add func(t string)
+				add = func(t string) {
+					if set[t] {
+						return
+					}
+					set[t] = true
+					for _, b := range graph[t] {
+						add(b)
+					}
+				}
+				for _, x := range v.Obj[i].V.Items() {
+					add(x.S)
+				}
+				var ss []string
+				for t := range set {
+					ss = append(ss, t)
+				}
+				v.Obj[i].V = strArr(sortedCopy(ss))
+				continue
+			}
+			closeUsedTypes(v.Obj[i].V, graph)
+		}
+	case OArr:
+		for _, x := range v.Arr {
+			closeUsedTypes(x, graph)
+		}
+	}
 }
